@@ -69,6 +69,25 @@ def run(ctx):
            all('ScriptVerifier::verify' in lbl for _, _, lbl in ctx.success_sinks(C)))
     ctx.guard('C18.r2', C, lambda k, t: k.endswith('TimeRelativeTransactionVerifier::verify'), 'Ok', ctail, gname='TimeRelativeTransactionVerifier::verify')
     ctx.guard('C18.r2', C, lambda k, t: k.endswith('CapacityVerifier::verify'), 'Ok', ctail, gname='CapacityVerifier::verify')
+    # F38: ckb_verification's ContextualTransactionVerifier = compatible + time_relative + capacity + script; the local copy
+    # must keep the hardfork compatibility check (an output lock with hash type data2 before ckb2023 is seen by nothing else)
+    comp = P.call_sites(C, lambda k, t: k.endswith('CompatibleVerifier::verify'))
+    ctx.ob('C18.r2', C.name, 'the hardfork compatibility verifier is part of the contextual verification', bool(comp),
+           failing_history=None if comp else 'consensus without ckb2023, tip epoch 0: a transaction with an output whose lock has hash type data2 is accepted by send_transaction')
+    if comp:
+        ctx.guard('C18.r2', C, lambda k, t: k.endswith('CompatibleVerifier::verify'), 'Ok', ctail, gname='CompatibleVerifier::verify')
+    # F39: a since with the timestamp metric needs the median time of the blocks from the tip backwards; the upstream verifier
+    # panics ('parent header exist') when one of them cannot be resolved, so (a) the tip header itself must be resolvable by the
+    # header provider and (b) verify_tx must fail with an error, before the verifier runs, when a required header is unknown
+    GH = ctx.body('<StorageWithChainData as HeaderProvider>::get_header')
+    tipfb = any(P.call_sites(c, 'Storage::get_last_state') for c in [GH] + P.closures_of(GH))
+    ctx.ob('C18.r2', GH.name, 'the stored tip header is resolvable by the header provider of the verifiers', tipfb,
+           failing_history=None if tipfb else 'synced client (tip 100, last n headers 1..=99): send_transaction with since = 0x4000_0000_0000_0000 | t panics in block_median_time: '
+           'the walk starts at the tip, which is in no prove state last-n list and not a stored block')
+    from engine import census
+    act, _ = census.compute(P, 'verify_tx', closures=True)
+    pre = [e for e in act if e['cls'] == 'reject' and any('get_header_fields' in a and re.search(r'is (None|Break)$', a.rstrip()) for a in e['trigger'])]
+    ctx.ob('C18.r2', V.name, 'an unknown header on the median-time walk is an error before the contextual verifier runs', bool(pre))
     R = ctx.body('resolve_tx')
     ctx.loop_guard('C18.r2', R, lambda k, t: k.startswith('HashSet') and k.endswith('::insert'), 'true', gname='current_inputs.insert')
     # resolve_cell closure: Ok(cell_meta) from the provider only in the Live arm
